@@ -48,6 +48,8 @@ MULTI7 = (
     ("chain", ("D1",), True),
     ("chain", ("DS",), True),
     ("chain", ("L2",)),
+    ("chain", ("E1", ("mat", "mE"))),
+    ("chain", ("E", ("xfer", "e1"), ("mat", "mE")), True),
     ("proj", ()),
     ("chain", ("I1",)),
     ("chain", ("IS",), True),
@@ -102,11 +104,11 @@ class C07(Check):
         mw = spaces.multi_world()
         if tier == "quick":
             return [
-                SubSpace("multi/p7/d3", mw, ("X", "L"), MULTI7, 3),
+                SubSpace("multi/p7/d3", mw, ("X", "L", "EL", "EL1"), MULTI7, 3),
                 SubSpace("multi/p7-small/d4", mw, ("X", "L"), MULTI7_SMALL, 4),
             ]
         return [
-            SubSpace("multi/p7/d4", mw, ("X", "L"), MULTI7, 4),
+            SubSpace("multi/p7/d4", mw, ("X", "L", "EL", "EL1"), MULTI7, 4),
             SubSpace("multi/p7-small/d5", mw, ("X", "L"), MULTI7_SMALL, 5),
         ]
 
